@@ -214,6 +214,23 @@ def dispatchC09 : List Str → Option (List Str)
     else if cmd == s "c09.pagecheck" then
       some [ guardStr pageTables.copyGuard, guardStr pageTables.filesGuard,
              (if pageTables.copyGuard == .always && pageTables.filesGuard.runs true then ['1'] else ['0']) ]
+    else if cmd == s "c09.pagenamecheck" then
+      some [ PageName.namingStr pageTables.names.url, PageName.namingStr pageTables.names.outfile,
+             PageName.namingStr pageTables.names.loc, (if PageName.tablesOk pageTables.names then ['1'] else ['0']) ]
+    else if cmd == s "c09.withsuffix" then
+      -- `str(PurePath(name).with_suffix(".html"))`
+      match args with
+      | [x] => some [PageName.withSuffixHtml x]
+      | _ => some [s "bad-request"]
+    else if cmd == s "c09.pagename" then
+      -- location, stem, directory of the linking page (below the root) -> url path, outfile, search url, relurl'd link
+      match args with
+      | [loc, stem, dir] =>
+        some [ render (PageName.urlPath pageTables.names (locOf loc) stem),
+               render (PageName.outPath pageTables.names (locOf loc) stem),
+               render (PageName.searchPath pageTables.names (locOf loc) stem),
+               render (PageName.linkTo pageTables.names [['o']] (locOf dir) (locOf loc) stem) ]
+      | _ => some [s "bad-request"]
     else if cmd == s "c09.pagecopy" then
       -- location, stem, nItems, (name, nFiles, files…)*, nFiles, files…
       match args with
